@@ -119,6 +119,17 @@ def overlay_sync(scratch, gen, files, name="overlay"):
     return od, repl
 
 
+def overlay_add(scratch, gen, repl, rel, srcfile, name="overlay"):
+    """Add a verif-owned file (e.g. an in-package export file) at <gen dir>/<rel>."""
+    g = GENS[gen]
+    od = os.path.join(scratch.dir, "%s-%s" % (name, gen))
+    os.makedirs(od, exist_ok=True)
+    out = os.path.join(od, "add__" + rel.replace("/", "__"))
+    open(out, "w").write(rewrite_for_gen(open(srcfile).read(), gen))
+    repl[os.path.join(g["dir"], rel)] = out
+    return od
+
+
 def write_overlay(od, repl, name="overlay.json"):
     p = os.path.join(od, name)
     json.dump({"Replace": repl}, open(p, "w"), indent=1)
